@@ -94,15 +94,19 @@ def edits():
         touched.add(n)
         return pm.set_initial_estimates(m, {n: round(m.parameters[n].init * r.choice([1.5, 2.0, 0.5]), 5)})
 
+    def _long(r, v):
+        # now and then a value with more significant digits than any default number format keeps
+        return float(repr(v + r.choice([0.000123456789, 0.0123456789012, 1.23456789e-7]))) if r.random() < 0.3 else v
+
     def e_lower(m, r, touched):
         p = r.choice(thetas(m))
-        v = round(p.init - abs(p.init) * r.choice([0.5, 1.0]) - 0.125, 3)
+        v = _long(r, round(p.init - abs(p.init) * r.choice([0.5, 1.0]) - 0.125, 3))
         touched.add(p.name)
         return pm.set_lower_bounds(m, {p.name: v})
 
     def e_upper(m, r, touched):
         p = r.choice(thetas(m))
-        v = round(p.init + abs(p.init) * r.choice([0.5, 2.0]) + 0.25, 3)
+        v = _long(r, round(p.init + abs(p.init) * r.choice([0.5, 2.0]) + 0.25, 3))
         touched.add(p.name)
         return pm.set_upper_bounds(m, {p.name: v})
 
@@ -158,6 +162,18 @@ def edits():
         touched.add(n)
         touched.add("__rv_structure__")
         return pm.remove_iiv(m, n)
+
+    def e_remove_iivs(m, r, touched):
+        # ONE update that removes a contiguous run of etas (e.g. every eta of one multi-value record)
+        names = list(m.random_variables.iiv.names)
+        if len(names) < 3:
+            raise ValueError("too few etas")
+        k = r.randint(2, min(3, len(names) - 1))
+        i = r.randint(0, len(names) - k)
+        sel = names[i:i + k]
+        touched.update(sel)
+        touched.add("__rv_structure__")
+        return pm.remove_iiv(m, sel)
 
     def e_join(m, r, touched):
         names = list(m.random_variables.iiv.names)
@@ -235,6 +251,7 @@ def edits():
         "fix": e_fix, "unfix": e_unfix, "fix_to": e_fix_to, "add_theta": e_add_theta, "remove_theta": e_remove_theta,
         "add_iiv": e_add_iiv, "remove_iiv": e_remove_iiv, "join": e_join, "split": e_split, "error_model": e_error,
         "fix_rv": e_fix_rv, "unfix_rv": e_unfix_rv, "change_and_remove_theta": e_change_and_remove,
+        "remove_iivs": e_remove_iivs,
     }
 
 
@@ -605,6 +622,10 @@ def classify(mm, orig_text, applied, model, replay=None):
     if "[reread]" in what and getattr(mm, "pos_equal", False) and ("parameter names" in what or "random variables" in what):
         if not _theta_name_shift_explained(mm):
             return None
+        # precondition of the listed mechanism: something was removed, or a join re-ordered the etas; a pure split /
+        # value edit that moves names is something else (pharmpy writes name comments for those)
+        if not any(a in ("remove_iiv", "remove_iivs", "remove_theta", "change_and_remove_theta", "join") for a in applied):
+            return None
         return "C04/default-names-shift-after-removal"
     thetas_txt = "\n".join(c for n, c in R.split_records(orig_text) if n == "THETA")
     multi = bool(re.search(r"\)\s*x\s*\d", thetas_txt)) or any(
@@ -650,7 +671,7 @@ def classify(mm, orig_text, applied, model, replay=None):
             pass
     multi_omega = any(not re.search(r"\bBLOCK\b", c, re.I) and len(R.parse_omega_records([c])) > 1
                       for n, c in R.split_records(orig_text) if n in ("OMEGA", "SIGMA"))
-    restructures = any(a in ("join", "split", "remove_iiv", "add_iiv") for a in applied)
+    restructures = any(a in ("join", "split", "remove_iiv", "remove_iivs", "add_iiv") for a in applied)
     if multi_omega and restructures and replay is not None:
         try:
             if replay(expand_layout(orig_text, thetas=False, omegas=True)):
